@@ -242,6 +242,88 @@ pub fn c41_top_bounded_keyed_fold<'a>(a: Stream<u32, P<'a>>) {
         .embedded_output("out");
 }
 
+/// two forward references, the first completed with a stream that depends synchronously on
+/// the second (acyclic: needs a non-constant ranking of the cycle ids)
+pub fn c41_forward_ref_chain<'a>(a: Stream<u32, P<'a>>) {
+    let p = a.location().clone();
+    let (c1, f1) = p.forward_ref::<Stream<u32, _, _>>();
+    let (c2, f2) = p.forward_ref::<Stream<u32, _, _>>();
+    f1.map(q!(|x| x + 100)).embedded_output("out");
+    c1.complete(f2.map(q!(|x| x * 3)));
+    c2.complete(a.filter(q!(|x| *x != 7)));
+}
+
+/// cross product at top level and inside a tick of a teed stream
+pub fn c41_cross_product<'a>(a: Stream<u32, P<'a>>, b: Stream<u32, P<'a>>) {
+    let tick = a.location().tick();
+    let a2 = a.clone();
+    let b2 = b.clone();
+    a.cross_product(b)
+        .assume_ordering::<hydro_lang::live_collections::stream::TotalOrder>(nondet!(/** test */))
+        .embedded_output("top");
+    a2.batch(&tick, nondet!(/** test */))
+        .cross_product(b2.batch(&tick, nondet!(/** test */)))
+        .all_ticks()
+        .embedded_output("tick");
+}
+
+/// a tee of a tee, flat_map and inspect, max/first as optionals at both levels
+pub fn c41_nested_tee<'a>(a: Stream<u32, P<'a>>) {
+    let tick = a.location().tick();
+    let t1 = a.flat_map_ordered(q!(|x| [x, x + 1])).inspect(q!(|_x| {}));
+    let t2 = t1.clone().map(q!(|x| x * 2));
+    let t3 = t2.clone();
+    t1.embedded_output("o1");
+    t2.batch(&tick, nondet!(/** test */)).max().into_stream().all_ticks().embedded_output("o2");
+    t3.max().snapshot(&tick, nondet!(/** test */)).into_stream().all_ticks().embedded_output("o3");
+}
+
+/// anti-join of a batch against a keyed stream carried over ticks, and a keyed reduce
+pub fn c41_anti_join<'a>(a: Stream<(u32, u32), P<'a>>, b: Stream<u32, P<'a>>) {
+    let tick = a.location().tick();
+    let (complete, blocked) = tick.cycle::<Stream<u32, _, _>, _>();
+    let blocked_now = blocked.chain(b.batch(&tick, nondet!(/** test */)));
+    complete.complete_next_tick(blocked_now.clone());
+    a.batch(&tick, nondet!(/** test */))
+        .anti_join(blocked_now)
+        .into_keyed()
+        .reduce(q!(|acc, x| *acc += x))
+        .entries()
+        .all_ticks()
+        .assume_ordering::<hydro_lang::live_collections::stream::TotalOrder>(nondet!(/** test */))
+        .embedded_output("out");
+}
+
+/// an optional with a default, zipped singletons, filter_if_some gating a batch
+pub fn c41_optional_gate<'a>(a: Stream<u32, P<'a>>, g: Stream<u32, P<'a>>) {
+    let tick = a.location().tick();
+    let gate = g.batch(&tick, nondet!(/** test */)).first();
+    let batch = a.batch(&tick, nondet!(/** test */));
+    let n = batch.clone().count();
+    batch
+        .filter_if_some(gate.clone())
+        .cross_singleton(n.zip(gate.unwrap_or(tick.singleton(q!(0u32)))))
+        .all_ticks()
+        .embedded_output("out");
+}
+
+/// scan and enumerate inside a tick, results persisted at top level through a fold of all ticks
+pub fn c41_tick_scan_top_fold<'a>(a: Stream<u32, P<'a>>) {
+    let tick = a.location().tick();
+    let per_tick = a
+        .batch(&tick, nondet!(/** test */))
+        .scan(q!(|| 0u32), q!(|acc, x| { *acc += x; Some(*acc) }))
+        .enumerate()
+        .all_ticks();
+    let p2 = per_tick.clone();
+    per_tick.map(q!(|(i, x)| (i as u32, x))).embedded_output("items");
+    p2.fold(q!(|| 0u32), q!(|acc, (_, x)| *acc += x))
+        .snapshot(&tick, nondet!(/** test */))
+        .into_stream()
+        .all_ticks()
+        .embedded_output("total");
+}
+
 // ------------------------------------------------------------------------------------ C31
 
 /// the batch every slice observes, as one Vec per slice
